@@ -34,7 +34,7 @@ MIN_EVALS = 1500
 MIN_NONTRIVIAL = 800
 
 BY_CONSTRUCTION = {"renamed-signal-clash", "renamed-port", "renamed-instance-clash", "foreign-signal", "orphan-signal", "foreign-signal-nested", "orphan-signal-nested", "orphan-member", "foreign-bundle", "foreign-instance-ref", "self-cycle", "two-cycle",
-                   "unnamed-module", "name-clash", "displaced-signal", "ext-name-clash"}
+                   "unnamed-module", "name-clash", "displaced-signal", "ext-name-clash", "mod-ext-name-clash"}
 
 
 def expr_kind(e):
@@ -279,6 +279,11 @@ def mutations(design, rng, limit_per_class):
     d = copy.deepcopy(design)
     d["extclash"] = True
     add("ext-name-clash", "module", d)
+    # a Module and an ExternalModule under one qualified name: with a domain (the defining Python module's), and without
+    for how in ("domain", "nodomain"):
+        d = copy.deepcopy(design)
+        d["modextclash"] = how
+        add("mod-ext-name-clash", f"module/{how}", d)
     mods = [m["name"] for m in design["modules"]]
     if len(mods) >= 2:
         d = copy.deepcopy(design)
@@ -336,6 +341,21 @@ def build_mutant(design):
         s2 = topm.add(h.Signal(width=2), name="zzc2")
         topm.add(x1()(a=s1, b=s1), name="zzx1")
         topm.add(x2()(a=s1, b=s2, c=s1), name="zzx2")
+    if design.get("modextclash"):
+        topm = built.modules[design["top"]]
+        if design["modextclash"] == "domain":
+            local = h.Module(name=f"ClashM{built.uid}")
+            from hdl21.qualname import qualname as _qn
+            dom = _qn(local).rsplit(".", 1)[0]
+        else:
+            ns = {}
+            exec(f"import hdl21 as h\nM = h.Module(name='ClashM{built.uid}')\n", ns)
+            local, dom = ns["M"], None
+        local.add(h.Port(), name="a")
+        xm = h.ExternalModule(name=f"ClashM{built.uid}", domain=dom, port_list=[h.Port(name="a"), h.Port(name="b")], paramtype=h.HasNoParams)
+        s1 = topm.add(h.Signal(), name="zzc1")
+        topm.add(local(a=s1), name="zzm1")
+        topm.add(xm()(a=s1, b=s1), name="zzx1")
     for mname in design.get("pre_elaborate", []):
         try:
             h.elaborate(built.modules[mname])
@@ -431,7 +451,7 @@ def call_all(rec, cls, site, design, case):
         except Exception:
             pass
     rec.hist("matrix", f"{cls} @ {site}")
-    ret = [c for c, r in results.items() if r == "returned" and not (cls in ("name-clash", "ext-name-clash") and c == "elaborate")]
+    ret = [c for c, r in results.items() if r == "returned" and not (cls in ("name-clash", "ext-name-clash", "mod-ext-name-clash") and c == "elaborate")]
     if ret:
         rec.violation(f"illformed-accepted:{cls}:{'+'.join(ret)}",
                       f"fault '{cls}' planted at site {site}: {', '.join(ret)} returned instead of raising", case=case,
